@@ -173,7 +173,7 @@ def run_slice(prop=None, jobs=16, repo='/repo', verbose=True):
             print(f'selftest: no mutants defined for {prop or "any property"}')
         return 0
     t0 = time.time()
-    with mp.Pool(min(jobs, len(ms))) as pool:
+    with mp.Pool(min(jobs, len(ms)), maxtasksperchild=12) as pool:
         res = pool.map(run_mutant, [(m, repo) for m in ms], chunksize=1)
     bad = 0
     for m, ok, msg, dt in res:
